@@ -423,3 +423,9 @@ U_POWER2 = Unit(P + '/Mininec.compute-power', ['Mininec.compute', 'Excitation.po
                                  [P + '/Mininec.compute[two sources]/power-is-the-net'])])
 
 UNITS = [U_RHS, U_RHS_LIN, U_CUR, U_SOLVE, U_DBI, U_EXC, U_ASM, U_COMPUTE, U_POWER2, U_FRAME]
+
+
+# linearity in the voltages holds for EVERY solve on an object only if nothing derived from a voltage is kept between the
+# registration of a source and the solve (a copy of the drive voltage taken at registration would freeze it): the state
+# inventory of C14 -- every persistent write is a declared result of its phase -- is part of this check
+EXTRA_UNITS = [('contracts.C14', 'U_INV')]
